@@ -20,6 +20,8 @@ def run(ctx):
     RT.every_posting_counted(ctx, "R18.h")
     from . import r_rank as RR
     RR.bounded_selection(ctx, "R06.a")
+    from . import r_trigram as _RT5
+    _RT5.candidate_returns(ctx, "R18.a")
     return info("R18.a: candidates are filtered by count > 0 before the cap; R18.b: cap is size × 10 and the comparator is "
                 "[(count, Desc)]; R18.c: the gram generator sorts and de-duplicates before every return, add and prepare use "
                 "only that generator, the gram iterator starts at width 1 and grows to 3; R18.d: positions are the enumerate "
